@@ -295,12 +295,15 @@ def run(chk):
     bare = '\n'.join(ln for ln in base.splitlines() if not ln.startswith(('INVARIANT', 'PROPERTY')))
     for clause, kind in (('Independent', 'INVARIANT'), ('OnlySlotsDependOnHistory', 'INVARIANT'),
                          ('NetworkFrozen', 'PROPERTY'), ('SimParamsFrozen', 'PROPERTY')):
+        if chk.tier == 'quick' and clause == 'OnlySlotsDependOnHistory':
+            continue                                      # thorough tier only (one JVM start less in the quick tier)
         rl = tlc.run('MC_Planning', cfg_text=bare.replace('Leaky = FALSE', 'Leaky = TRUE') + f'\n{kind} {clause}\n',
                      timeout=600, tag='c16-leaky')
         chk.add_mc(f'MC_Planning Leaky=TRUE must violate {clause}', rl, require_ok=False)
         if rl.violated != clause:
             raise Machinery(f'vacuity: the defective model (Leaky) does not violate {clause}: {rl.error}')
-    chk.cov['clauses_shown_non_vacuous'] = ['Independent', 'OnlySlotsDependOnHistory', 'NetworkFrozen', 'SimParamsFrozen']
+    chk.cov['clauses_shown_non_vacuous'] = ['Independent', 'NetworkFrozen', 'SimParamsFrozen'] + \
+        (['OnlySlotsDependOnHistory'] if chk.tier == 'thorough' else [])
     phase['B1'] = round(time.time() - t0, 1)
     # ---- B2
     hists = sorted(r.emitted, key=lambda h: (len(h['order']), h['order']))
@@ -310,12 +313,12 @@ def run(chk):
         rng = random.Random(chk.seed)
         short = [h for h in hists if len(h['order']) <= 2]
         long_ = [h for h in hists if len(h['order']) > 2]
-        sel = short + rng.sample(long_, 24)
+        sel = short + rng.sample(long_, 16)
         n = b2(chk, 'meshV2', sel)
         chk.cov['b2_histories'] = {'meshV2': n}
     else:
         rng = random.Random(chk.seed)
-        tt = [h for h in hists if len(h['order']) <= 3] + rng.sample([h for h in hists if len(h['order']) > 3], 300)
+        tt = [h for h in hists if len(h['order']) <= 3] + rng.sample([h for h in hists if len(h['order']) > 3], 200)
         chk.cov['b2_histories'] = {'meshV2': b2(chk, 'meshV2', hists), 'testTopology': b2(chk, 'testTopology', tt)}
     chk.cov['model_histories_with_slot_dependence'] = sum(1 for h in hists if not all(h['sameAsSolo']))
     phase['B1+B2'] = round(time.time() - t0, 1)
@@ -329,7 +332,7 @@ def run(chk):
         orders = [('original', list(range(n)))]
         if n > 1:
             orders.append(('reversed', list(reversed(range(n)))))
-            for k in range(nshuf):
+            for k in range(nshuf if (chk.tier == 'thorough' or n <= 10) else 0):
                 o = list(range(n))
                 rng.shuffle(o)
                 orders.append((f'shuffled-{k}', o))
